@@ -482,8 +482,16 @@ func main() {
 		c.SetRule("2-4 tables (id INT PRIMARY KEY, f1 INT, f2 INT); foreign key graphs: chain, diamond, self reference + child, double key + grandchild, " +
 			"random ON DELETE / ON UPDATE in RESTRICT, NO ACTION, CASCADE, SET NULL, random declaration order; histories of 8-16 single-row " +
 			"INSERT, DELETE by id, UPDATE of the id, UPDATE of a key column, keys mostly taken from live parent ids, some dangling, some NULL. " +
+			"One case in four uses a COMPOSITE key t1 (f1, f2) -> t0 (f1, f2) (UNIQUE on the parent, values in 1..3 or NULL, parent updates of the " +
+			"non-last key column, child rows with one NULL part): those are checked by the implementation-side predicate only. " +
 			"Every case is non-trivial; distinct = distinct (graph, history).")
 		if c.ReplayFile != "" {
+			var cc compCase
+			lib.LoadReplay(c.ReplayFile, &cc)
+			if cc.Composite {
+				runComposite(c, cc)
+				return
+			}
 			var cs caseT
 			lib.LoadReplay(c.ReplayFile, &cs)
 			run(c, cs)
@@ -507,8 +515,253 @@ func main() {
 		for _, cs := range corpus {
 			run(c, cs)
 		}
-		for i := len(corpus); i < c.N; i++ {
-			run(c, gen(c.R.Fork()))
+		// a child key column that is NULL (after ON DELETE SET NULL) updated to a value without parent: must be rejected
+		run(c, caseT{NTab: 2, FKs: []FK{{1, 1, 0, "SetNull", "Cascade"}},
+			H: []Stmt{{K: "ins", T: 0, ID: 1}, {K: "ins", T: 0, ID: 2}, {K: "ins", T: 1, ID: 11, A: ip(1)}, {K: "del", T: 0, ID: 1},
+				{K: "updcol", T: 1, ID: 11, C: 1, A: ip(7)}, {K: "updcol", T: 1, ID: 11, C: 1, A: ip(2)}, {K: "updcol", T: 1, ID: 11, C: 1, A: ip(9)}}})
+		nc := 4
+		for _, a := range []string{"Restrict", "Cascade", "SetNull"} {
+			// composite key: parent UPDATE of the NON-LAST key column; child with one NULL part updated to a dangling key
+			runComposite(c, compCase{Composite: true, OnDel: "SetNull", OnUpd: a, H: []Stmt{
+				{K: "ins", T: 0, ID: 1, A: ip(1), B: ip(1)}, {K: "ins", T: 0, ID: 2, A: ip(1), B: ip(2)}, {K: "ins", T: 1, ID: 11, A: ip(1), B: ip(1)},
+				{K: "ins", T: 1, ID: 12, B: ip(2)}, {K: "updcol", T: 0, ID: 1, C: 1, A: ip(3)}, {K: "updcol", T: 1, ID: 12, C: 1, A: ip(3)},
+				{K: "updcol", T: 1, ID: 12, C: 1, A: ip(1)}, {K: "del", T: 0, ID: 2}, {K: "updcol", T: 1, ID: 12, C: 1, A: ip(2)}, {K: "updcol", T: 1, ID: 12, C: 2, A: ip(2)}}})
+		}
+		for i := len(corpus) + nc; i < c.N; i++ {
+			if i%4 == 0 {
+				runComposite(c, genComposite(c.R.Fork()))
+			} else {
+				run(c, gen(c.R.Fork()))
+			}
 		}
 	})
+}
+
+// ---------------------------------------------------------------------------------------------------------------
+// Composite (two-column) keys: t1 (f1, f2) REFERENCES t0 (f1, f2), t0 has UNIQUE KEY (f1, f2).  Not in the Coq model
+// (single-column keys there): these cases are checked by the implementation-side predicate only, against the
+// independent reference below (MATCH SIMPLE: a row with a NULL key column is exempt).
+
+type compCase struct {
+	Composite bool   `json:"composite"`
+	OnDel     string `json:"d"`
+	OnUpd     string `json:"u"`
+	H         []Stmt `json:"h"` // kinds ins del updcol on tables 0 (parent) and 1 (child)
+}
+
+func keyOf(r rowT) (int64, int64, bool) {
+	if r.F[1] == nil || r.F[2] == nil {
+		return 0, 0, false
+	}
+	return *r.F[1], *r.F[2], true
+}
+
+func hasParent(d dbT, a, b int64) bool {
+	for _, p := range d[0] {
+		if x, y, ok := keyOf(p); ok && x == a && y == b {
+			return true
+		}
+	}
+	return false
+}
+
+func restrictish(a string) bool { return a == "Restrict" || a == "NoAction" }
+
+// refComposite: the prescribed outcome of one statement (want, must fail?)
+func refComposite(prev dbT, cc compCase, st Stmt) (dbT, bool) {
+	d := prev.clone()
+	switch {
+	case st.K == "ins" && st.T == 0:
+		nr := rowT{ID: st.ID, F: [3]*int64{nil, st.A, st.B}}
+		if a, b, ok := keyOf(nr); ok && hasParent(d, a, b) {
+			return prev, true // unique key
+		}
+		d[0] = append(d[0], nr)
+	case st.K == "ins" && st.T == 1:
+		nr := rowT{ID: st.ID, F: [3]*int64{nil, st.A, st.B}}
+		if a, b, ok := keyOf(nr); ok && !hasParent(d, a, b) {
+			return prev, true
+		}
+		d[1] = append(d[1], nr)
+	case st.K == "del" && st.T == 1:
+		if i := d.find(1, st.ID); i >= 0 {
+			d[1] = append(d[1][:i], d[1][i+1:]...)
+		}
+	case st.K == "del" && st.T == 0:
+		i := d.find(0, st.ID)
+		if i < 0 {
+			return prev, false
+		}
+		a, b, ok := keyOf(d[0][i])
+		d[0] = append(d[0][:i], d[0][i+1:]...)
+		if ok {
+			var keep []rowT
+			for _, c := range d[1] {
+				x, y, cok := keyOf(c)
+				if !(cok && x == a && y == b) {
+					keep = append(keep, c)
+					continue
+				}
+				switch {
+				case restrictish(cc.OnDel):
+					return prev, true
+				case cc.OnDel == "SetNull":
+					c.F[1], c.F[2] = nil, nil
+					keep = append(keep, c)
+				}
+			}
+			d[1] = keep
+		}
+	case st.K == "updcol" && st.T == 1:
+		i := d.find(1, st.ID)
+		if i < 0 || eqp(d[1][i].F[st.C], st.A) {
+			return prev, false
+		}
+		d[1][i].F[st.C] = st.A
+		if a, b, ok := keyOf(d[1][i]); ok && !hasParent(d, a, b) {
+			return prev, true
+		}
+	case st.K == "updcol" && st.T == 0:
+		i := d.find(0, st.ID)
+		if i < 0 || eqp(d[0][i].F[st.C], st.A) {
+			return prev, false
+		}
+		oa, ob, ook := keyOf(d[0][i])
+		d[0][i].F[st.C] = st.A
+		if na, nb, nok := keyOf(d[0][i]); nok {
+			for j, p := range d[0] {
+				if x, y, ok := keyOf(p); j != i && ok && x == na && y == nb {
+					return prev, true // unique key
+				}
+			}
+		}
+		if ook {
+			for j, c := range d[1] {
+				x, y, cok := keyOf(c)
+				if !(cok && x == oa && y == ob) {
+					continue
+				}
+				switch {
+				case restrictish(cc.OnUpd):
+					return prev, true
+				case cc.OnUpd == "Cascade":
+					d[1][j].F[1], d[1][j].F[2] = d[0][i].F[1], d[0][i].F[2]
+				default:
+					d[1][j].F[1], d[1][j].F[2] = nil, nil
+				}
+			}
+		}
+	}
+	for t := range d {
+		sort.Slice(d[t], func(i, j int) bool { return d[t][i].ID < d[t][j].ID })
+	}
+	return d, false
+}
+
+func genComposite(r *lib.RNG) compCase {
+	acts := []string{"Restrict", "NoAction", "Cascade", "Cascade", "SetNull", "SetNull"}
+	cc := compCase{Composite: true, OnDel: lib.Pick(r, acts), OnUpd: lib.Pick(r, acts)}
+	v := func() *int64 {
+		if r.Chance(1, 6) {
+			return nil
+		}
+		return ip(int64(r.Range(1, 3)))
+	}
+	type pk struct{ a, b *int64 }
+	var parents []pk
+	next := [2]int64{0, 0}
+	live := [2][]int64{}
+	for i, n := 0, r.Range(8, 16); i < n; i++ {
+		switch x := r.Intn(12); {
+		case x < 3 || len(live[0]) == 0:
+			next[0]++
+			p := pk{v(), v()}
+			parents = append(parents, p)
+			live[0] = append(live[0], next[0])
+			cc.H = append(cc.H, Stmt{K: "ins", T: 0, ID: next[0], A: p.a, B: p.b})
+		case x < 6:
+			next[1]++
+			a, b := v(), v()
+			if r.Chance(3, 4) {
+				p := lib.Pick(r, parents)
+				a, b = p.a, p.b
+				if r.Chance(1, 5) {
+					a = nil // one part of the composite key NULL
+				}
+			}
+			live[1] = append(live[1], 10+next[1])
+			cc.H = append(cc.H, Stmt{K: "ins", T: 1, ID: 10 + next[1], A: a, B: b})
+		case x < 9:
+			// parent update; the NON-LAST key column (f1) twice as often as the last one
+			col := 1
+			if r.Chance(1, 3) {
+				col = 2
+			}
+			cc.H = append(cc.H, Stmt{K: "updcol", T: 0, ID: lib.Pick(r, live[0]), C: col, A: v()})
+		case x < 11 && len(live[1]) > 0:
+			cc.H = append(cc.H, Stmt{K: "updcol", T: 1, ID: lib.Pick(r, live[1]), C: r.Range(1, 2), A: v()})
+		default:
+			t := r.Intn(2)
+			if len(live[t]) > 0 {
+				cc.H = append(cc.H, Stmt{K: "del", T: t, ID: lib.Pick(r, live[t])})
+			}
+		}
+	}
+	return cc
+}
+
+func runComposite(c *lib.Ctx, cc compCase) {
+	e := eng.New("db")
+	s := e.Session()
+	s.MustExec("SET foreign_key_checks = 1",
+		"CREATE TABLE t0 (id INT PRIMARY KEY, f1 INT, f2 INT, UNIQUE KEY ab (f1, f2))",
+		"CREATE TABLE t1 (id INT PRIMARY KEY, f1 INT, f2 INT)",
+		fmt.Sprintf("ALTER TABLE t1 ADD CONSTRAINT fk0 FOREIGN KEY (f1, f2) REFERENCES t0 (f1, f2) ON DELETE %s ON UPDATE %s", actSQL[cc.OnDel], actSQL[cc.OnUpd]))
+	type failT struct{ sig, what string }
+	var fails []failT
+	prev := readDB(s, 2)
+	orphans := int64(0)
+	for si, st := range cc.H {
+		q := st.sql()
+		r := s.Query(q)
+		cur := readDB(s, 2)
+		shape := fmt.Sprintf("%s-t%d/on-delete-%s/on-update-%s", st.K, st.T, cc.OnDel, cc.OnUpd)
+		if r.Panic != "" {
+			fails = append(fails, failT{"composite-panic", q + " panicked: " + r.Panic})
+		}
+		oq := "SELECT COUNT(*) FROM t1 c LEFT JOIN t0 p ON c.f1 = p.f1 AND c.f2 = p.f2 WHERE p.id IS NULL AND c.f1 IS NOT NULL AND c.f2 IS NOT NULL"
+		rr := s.Query(oq)
+		if rr.Err != nil || len(rr.Rows) != 1 {
+			panic(fmt.Sprintf("orphan query failed: %v", rr.Err))
+		}
+		if n := toI(rr.Rows[0][0]); n > orphans {
+			fails = append(fails, failT{"composite-orphan-rows/" + shape, fmt.Sprintf("after statement %d %s: %d child row(s) reference a missing parent key; tables %s", si, q, n, cur)})
+			orphans = n
+		} else {
+			orphans = n
+		}
+		want, mustFail := refComposite(prev, cc, st)
+		switch {
+		case r.Err != nil && !sameDB(prev, cur):
+			fails = append(fails, failT{"composite-failed-statement-changed-tables/" + shape, fmt.Sprintf("statement %d %s failed (%v) but tables changed from %s to %s", si, q, r.Err, prev, cur)})
+		case mustFail && r.Err == nil:
+			fails = append(fails, failT{"composite-violation-accepted/" + shape, fmt.Sprintf("statement %d %s succeeded but must be rejected; before %s after %s", si, q, prev, cur)})
+		case !mustFail && r.Err != nil:
+			fails = append(fails, failT{"composite-wrongly-refused/" + shape, fmt.Sprintf("statement %d %s failed (%v) but violates nothing; tables %s", si, q, r.Err, prev)})
+		case !mustFail && !sameDB(want, cur):
+			fails = append(fails, failT{"composite-effect-differs/" + shape, fmt.Sprintf("statement %d %s: expected %s, got %s", si, q, want, cur)})
+		}
+		c.Count("composite-stmt/" + st.K + fmt.Sprintf("-t%d", st.T))
+		prev = cur
+	}
+	c.Count("composite-key-cases")
+	id := c.CaseNoModel(cc, fmt.Sprintf("%v", cc))
+	c.PredChecked()
+	seen := map[string]bool{}
+	for _, f := range fails {
+		if !seen[f.sig] {
+			seen[f.sig] = true
+			c.PredFail(id, f.sig, f.what, cc)
+		}
+	}
 }
